@@ -48,10 +48,7 @@ class UnknownZone(Zone):
 @dataclass
 class InvalidZone(Zone):
     def is_subseteq(self, other: Zone) -> bool:
-        return isinstance(other, InvalidZone)
-
-    def join(self, other: Zone) -> Zone:
-        return self
+        return isinstance(other, UnknownZone) or type(other) is InvalidZone
 
 
 @dataclass
@@ -59,6 +56,8 @@ class InvalidSpecId(InvalidZone):
     spec_id: str
 
     def is_subseteq(self, other: Zone) -> bool:
+        if isinstance(other, UnknownZone) or type(other) is InvalidZone:
+            return True
         return isinstance(other, InvalidSpecId) and (self.spec_id == other.spec_id)
 
     def join(self, other: Zone) -> Zone:
@@ -68,7 +67,7 @@ class InvalidSpecId(InvalidZone):
             else:
                 return InvalidZone()
 
-        return Zone.bottom()
+        return super().join(other)
 
 
 @dataclass
@@ -76,6 +75,8 @@ class SpecZone(Zone):
     spec_id: str
 
     def is_subseteq(self, other: Zone) -> bool:
+        if isinstance(other, UnknownZone):
+            return True
         return isinstance(other, SpecZone) and (self.spec_id == other.spec_id)
 
 
@@ -89,6 +90,8 @@ class GetItemOfZone(GetItemLike, Zone):
     index: Zone
 
     def is_subseteq(self, other: Zone) -> bool:
+        if isinstance(other, UnknownZone):
+            return True
         return (
             isinstance(other, GetItemOfZone)
             and self.zone.is_subseteq(other.zone)
@@ -102,6 +105,8 @@ class GetSubGridOfZone(GetItemLike, Zone):
     y_indices: Zone
 
     def is_subseteq(self, other: Zone) -> bool:
+        if isinstance(other, UnknownZone):
+            return True
         return (
             isinstance(other, GetSubGridOfZone)
             and self.zone.is_subseteq(other.zone)
